@@ -9,7 +9,7 @@ import UF.Proofs.DnsRewriteParse
   The tables of miekg/dns, the keyword list and the handler keys are generated facts; the theorems
   are re-checked against them on every run.
 -/
-namespace UF
+namespace UF.H
 open Bytes
 
 /-- Every accepted value has the published shape. -/
@@ -146,4 +146,4 @@ example : (loadDNSRewrite exampleExt (lit "NOERROR;HTTPS;1 . alpn=h3 alpn=h2")).
 example : shapeOK { rrType := 1, value := .addr { is4 := false, val := 1 } } = false := by decide
 example : shapeOK { rrType := 15, value := .mx 65536 (lit "x") } = false := by decide
 
-end UF
+end UF.H
